@@ -163,11 +163,18 @@ Step ==
               /\ viol' = viol \cup (IF e.still_migrating THEN {<<l, IF mode = "recover" THEN "C13.migration_stuck_after_recovery" ELSE "C07.migration_not_finished">>} ELSE {})
               /\ UNCHANGED <<cur, synced, skipped, mode, inst, commits, expect>>
          [] e.kind = "roles" ->
-              \* replication roles held by each proxy = roles in the broker's current view (checked against the next state record by the epochs rule;
-              \* here: each reported node has exactly one role record)
-              /\ viol' = viol \cup (IF \A i \in DOMAIN e.proxies : \A a, b \in DOMAIN e.proxies[i].roles :
-                                         (a # b) => e.proxies[i].roles[a].node # e.proxies[i].roles[b].node
-                                     THEN {} ELSE {<<l, "C07.duplicate_role_record">>})
+              \* C07 / C13: after convergence the replication roles a proxy holds (UMCTL INFOREPL) are exactly the roles of its nodes in
+              \* the broker's current view (the state record just before); each reported node has one role record
+              LET dup == \E i \in DOMAIN e.proxies : \E a, b \in DOMAIN e.proxies[i].roles :
+                              a # b /\ e.proxies[i].roles[a].node = e.proxies[i].roles[b].node
+                  V == IF HasView(cur, e.cluster) THEN ViewOf(cur, e.cluster) ELSE [nodes |-> <<>>]
+                  Want(p) == {<<V.nodes[n].addr, V.nodes[n].role>> : n \in {m \in DOMAIN V.nodes : V.nodes[m].proxy = p}}
+                  Have(i) == {<<e.proxies[i].roles[k].node, e.proxies[i].roles[k].role>> : k \in DOMAIN e.proxies[i].roles}
+                  differ == checking /\ HasView(cur, e.cluster) /\ \E i \in DOMAIN e.proxies : Have(i) # Want(e.proxies[i].proxy)
+              IN
+              /\ viol' = viol \cup (IF dup THEN {<<l, "C07.duplicate_role_record">>} ELSE {})
+                              \cup (IF differ THEN {<<l, IF mode = "recover" THEN "C13.replication_roles_differ_after_recovery"
+                                                        ELSE "C07.replication_roles_differ_after_convergence">>} ELSE {})
               /\ UNCHANGED <<cur, synced, skipped, mode, inst, commits, expect, checking>>
          [] e.kind = "ctl_end" -> checking' = FALSE /\ UNCHANGED <<cur, synced, viol, skipped, mode, inst, commits, expect>>
          [] OTHER -> UNCHANGED <<cur, synced, viol, skipped, mode, inst, commits, expect, checking>>
